@@ -218,6 +218,8 @@ pub struct Sim {
     pub prefill: (u32, u32),
     /// exhaustive exploration: remaining (worker losses, cancels, extra workers) on this path
     pub x_budget: (u32, u32, u32),
+    /// time request (s) of the multi-node tasks the exhaustive exploration submits (0 = none)
+    pub x_mn_min_time: u64,
     pub x_submit: u32,
     pub x_submit_job: Option<u32>,
     /// generator profile: 0 basic, 1 prefill-heavy, 2 multi-node, 3 resources/variants/strict policies,
@@ -449,6 +451,7 @@ impl Sim {
             task_rqv: Default::default(),
             task_tl: Default::default(),
             x_budget: (1, 1, 1),
+            x_mn_min_time: 0,
             x_submit: 0,
             x_submit_job: None,
             prefill,
@@ -1929,6 +1932,44 @@ impl Sim {
                 s.submit_desc(None, None, desc, "array 0:5:1 -".to_string());
                 s.x_budget = (0, 1, 0);
             }
+            6 => {
+                // a task with three dependencies listed in submit order, the first of which has finished (the core has
+                // forgotten it) while the other two still run, and a second consumer of the last one
+                add(&mut s, 3, "default");
+                let mk = |id: u32, deps: Vec<u32>| TaskWithDependencies {
+                    id: JobTaskId::new(id),
+                    resource_rq_id: LocalResourceRqId::new(0),
+                    task_desc: task_desc(0, CrashLimit::MaxCrashes(1), None),
+                    task_deps: deps.into_iter().map(JobTaskId::new).collect(),
+                };
+                let desc = JobTaskDescription::Graph {
+                    resource_rqs: vec![cpu_rq(1, 0)],
+                    tasks: vec![mk(0, vec![]), mk(1, vec![]), mk(2, vec![]), mk(3, vec![0, 1, 2]), mk(4, vec![2])],
+                };
+                s.submit_desc(None, None, desc, "graph 0:;1:;2:;3:0.1.2;4:2".to_string());
+                s.act_schedule();
+                while s.do_deliver(1, true) {}
+                let a = TaskId::new(JobId::new(1), JobTaskId::new(0));
+                s.do_end_task(1, a, EndKind::Finished);
+                while s.do_deliver(1, false) {}
+                s.x_budget = (0, 1, 0);
+                return s;
+            }
+            7 | 8 | 9 => {
+                // one group of three workers, ONE of them (the first, second or third) too short-lived for the time request
+                // of the two-node tasks that arrive later
+                let short = k - 7;
+                for i in 0..3u32 {
+                    let next = WorkerId::new(s.world.server.worker_counter() + 1);
+                    let mut cfg = worker_config(next, 1, "ga", if i == short { Some(50_000) } else { None });
+                    cfg.resources = ResourceDescriptor::simple_cpus(1);
+                    s.do_add_worker(cfg);
+                }
+                s.x_budget = (0, 0, 0);
+                s.x_submit = 2;
+                s.x_mn_min_time = 100;
+                return s;
+            }
             5 => {
                 add(&mut s, 1, "ga");
                 let one = |ids: IntArray| JobTaskDescription::Array { ids, entries: None, resource_rq: cpu_rq(1, 0), task_desc: task_desc(0, CrashLimit::default(), None) };
@@ -2028,7 +2069,11 @@ impl Sim {
                 self.x_submit -= 1;
                 let job = self.x_submit_job;
                 let (ids, text) = if job.is_some() { (IntArray::from_id(1), "array 1:1:1 -") } else { (IntArray::from_id(0), "array 0:1:1 -") };
-                let mn = JobTaskDescription::Array { ids, entries: None, resource_rq: cpu_rq(0, 2), task_desc: task_desc(1, CrashLimit::MaxCrashes(1), None) };
+                let mut rq = cpu_rq(0, 2);
+                if self.x_mn_min_time > 0 {
+                    rq = ResourceRequestVariants::new_simple(ResourceRequest { n_nodes: 2, resources: Default::default(), min_time: std::time::Duration::from_secs(self.x_mn_min_time), weight: Default::default() });
+                }
+                let mn = JobTaskDescription::Array { ids, entries: None, resource_rq: rq, task_desc: task_desc(1, CrashLimit::MaxCrashes(1), None) };
                 self.submit_desc(job, None, mn, text.to_string());
             }
             XAct::AddWorker => {
